@@ -90,6 +90,32 @@ func randRichValidCfg(rng *rand.Rand) *CfgSpec {
 	return c
 }
 
+// randLongListsCfg: a rich valid configuration in which every discrete list is long (9..40 elements).
+func randLongListsCfg(rng *rand.Rand) *CfgSpec {
+	c := randRichValidCfg(rng)
+	if n := len(c.ReqHdrs); n < 9 {
+		for i := 0; i < 9+rng.IntN(24); i++ {
+			name := "x-many-" + string(rune('a'+rng.IntN(26))) + string(rune('a'+rng.IntN(26)))
+			if rng.IntN(3) == 0 {
+				name = asciiUpper(name[:3]) + name[3:]
+			}
+			insertAt(rng, &c.ReqHdrs, hv(name))
+		}
+	}
+	if n := len(c.Methods); n < 9 {
+		for i := 0; i < 9+rng.IntN(16); i++ {
+			m := "M" + string(rune('A'+rng.IntN(26))) + string(rune('a'+rng.IntN(26)))
+			insertAt(rng, &c.Methods, MAtom{m, mValid, m})
+		}
+	}
+	if n := len(c.RespHdrs); n < 9 {
+		for i := 0; i < 9+rng.IntN(16); i++ {
+			insertAt(rng, &c.RespHdrs, hv("X-Exp-"+string(rune('a'+rng.IntN(26)))+string(rune('a'+rng.IntN(26)))))
+		}
+	}
+	return c
+}
+
 func c06Run(r *Run, l *Local, c *CfgSpec) {
 	cfg := c.Config()
 	l.cur = func() any { return c06Case{c} }
